@@ -99,7 +99,9 @@ def c15_scripts(rng, tier):
         for T in (32, 64):
             L = rng.choice([8, 16, 24, 32, 64, 128, 256] if tier == "quick" else
                            [8, 16, 24, 32, 40, 48, 56, 64, 72, 88, 104, 128, 136, 256, 512])
-            F = rng.choice([1, 2, 4, 16, 128, 256] if tier == "quick" else [1, 2, 3, 4, 5, 7, 16, 100, 128, 256, 512])
+            # oversampling factors that are not powers of two are valid too (160 is the documented example)
+            F = rng.choice([1, 2, 4, 16, 128, 256, 3, 5, 100, 160] if tier == "quick" else
+                           [1, 2, 3, 4, 5, 7, 16, 100, 128, 147, 160, 256, 512])
             pairs = []
             for _p in range({"quick": 6, "thorough": 30}[tier]):
                 pairs.append([rng.randrange(0, 40), rng.randrange(0, F), rng.randrange(0, 8)])
